@@ -159,7 +159,10 @@ Definition take (n : Z) (s : stream) : res (list Z * stream) :=
   else Err IOErr.
 (* fp.read(n): as many as there are; a negative n reads everything *)
 Definition read_upto (n : Z) (s : stream) : list Z * stream :=
-  if n <? 0 then (s, []) else (firstn (Z.to_nat n) s, skipn (Z.to_nat n) s).
+  if n <? 0 then (s, []) else
+  let k := Z.to_nat (Z.min n (len s)) in (firstn k s, skipn k s).   (* min: no huge unary numbers *)
+(* fp.seek(pos + n) for n >= 0, then reading on: the rest after n bytes (nothing if beyond the end) *)
+Definition skipz (n : Z) (s : stream) : stream := skipn (Z.to_nat (Z.min n (len s))) s.
 
 Definition read_u (n : nat) (s : stream) : res (Z * stream) :=
   do x <- take (Z.of_nat n) s; Ok (be_val (fst x), snd x).
@@ -182,13 +185,20 @@ Lemma take_app_n n a r : len a = n -> take n (a ++ r) = Ok (a, r).
 Proof. intros <-. apply take_app. Qed.
 Lemma read_upto_app a r : read_upto (len a) (a ++ r) = (a, r).
 Proof.
-  unfold read_upto. pose proof (len_nonneg a). destruct (len a <? 0) eqn:E; [lia|].
+  unfold read_upto. pose proof (len_nonneg a). pose proof (len_nonneg r).
+  destruct (len a <? 0) eqn:E; [lia|].
+  rewrite Z.min_l by (rewrite len_app; lia).
   now rewrite firstn_len_app, skipn_len_app.
 Qed.
 Lemma read_upto_all n s : len s <= n -> read_upto n s = (s, []).
 Proof.
   intros H. unfold read_upto. pose proof (len_nonneg s). destruct (n <? 0) eqn:E; [lia|].
-  unfold len in *. rewrite firstn_all2, skipn_all2 by lia. reflexivity.
+  rewrite Z.min_r by lia. unfold len. rewrite Nat2Z.id, firstn_all, skipn_all. reflexivity.
+Qed.
+Lemma skipz_app a r : skipz (len a) (a ++ r) = r.
+Proof.
+  unfold skipz. pose proof (len_nonneg r). rewrite Z.min_l by (rewrite len_app; lia).
+  apply skipn_len_app.
 Qed.
 
 Lemma read_u_pack n v b r : pack_u n v = Ok b -> read_u n (b ++ r) = Ok (v, r).
